@@ -39,6 +39,10 @@ def seeded_table():
         verdict = "not detected at first" if not v else ("caught (no failing input found)" if "no-failing-input-found" in v else "caught with failing input")
         if m.get("recheck"):
             verdict += "; " + m["recheck"]
+        fin = m.get("final")
+        if fin:
+            verdict += "; NOW (%s): %s" % (fin.get("at", "?"), {"input": "caught with failing input", "no-failing-input-found": "caught (no failing input found)",
+                                                                "missed": "NOT detected", "patch-does-not-apply": "patch no longer applies (fixed upstream of it)"}.get(fin["verdict"], fin["verdict"]))
         rows.append("| %s | %s | %s | %s | %s |" % (
             os.path.basename(d), m.get("summary", "").replace("|", "/")[:260], m.get("needs", "").replace("|", "/")[:220],
             verdict, ", ".join(m.get("caught_by", [])) or "-"))
